@@ -41,6 +41,26 @@ CHECKS = {
         "missing) x the five functions x argument forms (@, @.x, bracketed with blanks, negated, literal), decided by real filter queries and compared with the set-membership definition in the property.",
    design="4.C14", note="trusted base: the 20-line set-semantics oracle in mc/src/checks/ext.rs; element equality only between values where structural equality and RFC == coincide",
    technique="exhaustive enumeration of the finite argument table of the five extension functions against a set-semantics oracle"),
+ "C06": dict(
+   text="Exhaustive language enumeration: every token string up to n tokens after `$`, every character string up to m characters over a raw alphabet, every sentence of a generative "
+        "encoding of the RFC grammar (all comparable pairs x operators, functions with every argument kind, Boolean structure, segment sequences) with a blank of each kind at every "
+        "boundary, one-position families (class-boundary characters, every escape, upper/lower/mixed hex, all surrogate pairings, integer and number shapes) and every single-token edit; "
+        "each string is classified by an independent RFC recogniser; every string it calls valid must be accepted by the real parser.",
+   design="4.C06/C07", note="trusted base: the hand-written recogniser mc/src/model/parse.rs (ABNF + I-JSON range + function well-typedness), cross-checked at start-up against the sentence generator and the RFC's examples; unknown function names and out-of-range integer literals are don't-care",
+   technique="exhaustive enumeration of bounded string spaces (all token strings <= n, all character strings <= m, all grammar sentences up to a size, all single-token edits) classified by a reference recogniser"),
+ "C07": dict(
+   text="Same exhaustive enumeration as C06, opposite direction: every enumerated string the RFC recogniser calls invalid (in particular every near-miss: a blank at every illegal position, "
+        "single-token deletions / insertions / substitutions / transpositions of valid sentences, malformed escapes, leading zeros, -0, out-of-range integers, ill-typed or mis-aritied "
+        "function calls, non-singular queries in comparisons) must be rejected by the real parser.",
+   design="4.C06/C07", note="trusted base: as C06",
+   technique="exhaustive enumeration of bounded string spaces and of all single-token edits of valid sentences, classified by a reference recogniser"),
+ "C08": dict(
+   text="Every string of the C06/C07 spaces is parsed under catch_unwind with overflow checks on, and every accepted string is evaluated on a 12-document panel through all public entry "
+        "points and must return Ok; the integer cube (all triples over 0, +-1, +-(2^53-1), +-(2^53-2), +-2^53, i64 limits, beyond i64) goes through the parser and, inside the I-JSON range, "
+        "through programmatically built queries; a depth ladder runs each nesting construct (parentheses, negations, nested filters, function calls, segments, ||/&& chains, unions, "
+        "document depth under descendant segments) at depths 8..32768 in isolated subprocesses with an 8 MiB stack and a wall-clock horizon.",
+   design="4.C08", note="bounds: the enumerated spaces, the cube values, the ladder rungs; asymptotic claims are out of reach; stack exhaustion findings are identified by (construct, first failing rung)",
+   technique="exhaustive enumeration of bounded input spaces under panic / abort / timeout observation (subprocess isolation for stack exhaustion)"),
 }
 
 checks = []
